@@ -1,45 +1,53 @@
-"""Regenerate every Lean file that is derived from /repo's current source (run by setup and by each check)."""
+"""Regenerate every Lean file that is derived from /repo's current source (run by setup and by each check).
+
+One generator per line of GENERATORS: (module under translate/, output file under lean/SarpyModel/Gen/, what to print from its result).
+A generator that raises is reported and the others still run: the check whose theorems need the missing file then fails closed."""
 import os
 import sys
+import traceback
 HERE = os.path.dirname(os.path.abspath(__file__))
 sys.path.insert(0, HERE)
 GEN = os.path.join(HERE, '..', 'lean', 'SarpyModel', 'Gen')
 
 
+def _unsup(r):
+    return r.get('unsupported') if isinstance(r, dict) else None
+
+
+GENERATORS = [
+    ('gen_slices', 'Slices.lean', _unsup),
+    ('gen_nitf', 'NitfKernels.lean', _unsup),
+    ('tables_nitf', 'NitfTables.lean', lambda r: len(r['tables'])),
+    ('gen_kernels2', 'Kernels2.lean', _unsup),
+    ('tables_nitf2', 'NitfTables2.lean', lambda r: {'descs': len(r['descs']), 'errors': r['errors'], 'mismatches': len(r['mismatches'])}),
+    ('tables_tre', 'TreTables.lean', lambda r: {'tres': len(r['tres']), 'untranslated': r['untranslated'], 'defects': len(r['defects'])}),
+    ('xsd2lean', 'XsdPairs.lean', lambda r: {k: r[k] for k in list(r)[:6] if not isinstance(r[k], (list, dict))}),
+    ('gen_geo', 'Geo.lean', _unsup),
+    ('gen_nitf_orient', 'NitfOrient.lean', lambda r: {'unsupported': r['unsupported'], 'rows': r['rows']}),
+    ('gen_life', 'Life.lean', _unsup),
+    ('gen_checker', 'CheckerRules.lean', lambda r: {'unsupported': r['unsupported'], 'rules': len(r['rules'])}),
+    ('gen_cphd', 'CphdKernels.lean', _unsup),
+    ('gen_openers', 'Openers.lean', _unsup),
+    ('gen_loops', 'Loops.lean', _unsup),
+    ('gen_dispatch', 'Dispatch.lean', _unsup),
+    ('tables_xml', 'XmlTables.lean', lambda r: None),
+]
+
+
 def main():
     os.makedirs(GEN, exist_ok=True)
-    import gen_slices, gen_nitf, tables_nitf
-    r1 = gen_slices.generate(os.path.join(GEN, 'Slices.lean'))
-    r2 = gen_nitf.generate(os.path.join(GEN, 'NitfKernels.lean'))
-    r3 = tables_nitf.generate(os.path.join(GEN, 'NitfTables.lean'))
-    print('generated:', {'Slices': r1['unsupported'], 'NitfKernels': r2['unsupported'], 'NitfTables': len(r3['tables'])})
-    import gen_kernels2
-    r6 = gen_kernels2.generate(os.path.join(GEN, 'Kernels2.lean'))
-    print('generated:', {'Kernels2': r6['unsupported']})
-    import tables_nitf2
-    r4 = tables_nitf2.generate(os.path.join(GEN, 'NitfTables2.lean'))
-    print('generated:', {'NitfTables2': len(r4['descs']), 'errors': r4['errors'], 'mismatches': len(r4['mismatches'])})
-    import tables_tre
-    r6 = tables_tre.generate(os.path.join(GEN, 'TreTables.lean'))     # also writes Gen/TreTablesDefs.lean
-    print('generated:', {'TreTables': len(r6['tres']), 'untranslated': r6['untranslated'], 'defects': len(r6['defects'])})
-    import xsd2lean
-    r5 = xsd2lean.generate(os.path.join(GEN, 'XsdPairs.lean'))     # also writes Gen/XsdClosed.lean
-    print('generated:', {'XsdPairs': {k: r5[k] for k in list(r5)[:6] if not isinstance(r5[k], (list, dict))}})
-    import gen_geo
-    r6 = gen_geo.generate(os.path.join(GEN, 'Geo.lean'))
-    print('generated:', {'Geo': r6['unsupported']})
-    import gen_cphd
-    r7 = gen_cphd.generate(os.path.join(GEN, 'CphdKernels.lean'))
-    print('generated:', {'CphdKernels': r7['unsupported']})
-    import gen_dispatch
-    r8 = gen_dispatch.generate(os.path.join(GEN, 'Dispatch.lean'))
-    print('generated:', {'Dispatch': r8['unsupported']})
-    for extra in ('tables_xml',):
+    for mod, out, show in GENERATORS:
+        if not os.path.exists(os.path.join(HERE, mod + '.py')):
+            continue
         try:
-            mod = __import__(extra)
-            mod.generate(os.path.join(GEN, 'XmlTables.lean'))
-        except ImportError:
-            pass
+            r = __import__(mod).generate(os.path.join(GEN, out))
+            try:
+                print('generated:', {out[:-5]: show(r)})
+            except Exception:
+                print('generated:', out)
+        except Exception:
+            print(f'generation of {out} by {mod} failed (the checks that need it will report):')
+            traceback.print_exc(limit=3)
 
 
 if __name__ == '__main__':
